@@ -131,13 +131,22 @@ REGISTRY = {
         "theorems": ["Mesa.Cells." + t for t in (
             "C06_gen_agents_eq_model", "C06_gen_is_empty_eq_model", "C06_gen_is_full_eq_model", "C06_gen_add_agent_eq_model",
             "C06_gen_remove_agent_eq_model", "C06_model_mutators_are_generated", "C06_capacity_generated",
-            "C06_empty_flag_generated", "C18_cells_rejected_mutator_generated", "C06_gen_move_to_eq_model")],
+            "C06_empty_flag_generated", "C18_cells_rejected_mutator_generated", "C06_gen_move_to_eq_model",
+            "C06_capacity_generated_any_int")],
     },
     "C05": {
         "groups": ["Steps"],
         "functions": ["Model._wrapped_step"],
         "lean_modules": ["MesaModel.Proofs.XlateSteps"],
         "theorems": ["Mesa.Steps." + t for t in ("C05_gen_wrapped_step_eq_model", "C05_increment_before_user_code_generated")],
+    },
+    "C18": {
+        # C18-cells over the generated text: a rejected add_agent / remove_agent leaves the cell's record unchanged
+        "groups": ["CellOcc"],
+        "functions": ["Cell.add_agent", "Cell.remove_agent"],
+        "lean_modules": ["MesaModel.Proofs.XlateCellOcc"],
+        "theorems": ["Mesa.Cells." + t for t in (
+            "C06_gen_add_agent_eq_model", "C06_gen_remove_agent_eq_model", "C18_cells_rejected_mutator_generated")],
     },
     "C08": {
         "groups": ["Legacy"],
